@@ -176,7 +176,7 @@ func (d *driver) planExh(n, cap int) {
 	}
 }
 
-var faultOps = []Fault{{"exists", 0, "before"}, {"fetch", 0, "before"}, {"push", 0, "before"}, {"push", 0, "after"}}
+var faultOps = []Fault{{"exists", 0, "before"}, {"fetch", 0, "before"}, {"fetch", 0, "mid"}, {"push", 0, "before"}, {"push", 0, "after"}}
 var cbOps = []string{"pre", "post", "skipped"}
 
 // planFaults: every single fault (operation, node, phase) and every single
@@ -349,7 +349,7 @@ func (d *driver) planExtF(count int) {
 			sc.Root = 2
 			sc.Salt = fmt.Sprint("x", i) // other digests, hence another page order, every time
 		}
-		sc.SrcKind = []string{"memory", "oci", "remote", "remote", "remotetag"}[d.rng.Intn(5)]
+		sc.SrcKind = []string{"memory", "oci", "remote", "remote", "remotetag", "file", "filecas"}[d.rng.Intn(7)]
 		sc.DstKind = []string{"memory", "oci"}[d.rng.Intn(2)]
 		if sc.SrcKind == "remote" {
 			sc.RefPage = d.rng.Intn(3)
@@ -395,7 +395,7 @@ func (d *driver) planRemote(count int) {
 			}
 		}
 		if sc.DstKind == "remote" {
-			sc.Mount = d.rng.Intn(4)
+			sc.Mount = d.rng.Intn(6)
 		}
 		switch d.rng.Intn(5) {
 		case 0:
@@ -477,6 +477,25 @@ func (d *driver) planRandom(count int, ext bool) {
 			if d.rng.Intn(10) == 0 {
 				sc.Cancel = -1
 			}
+		}
+		if sc.DstKind == "file" && len(sc.Faults) == 0 && len(sc.CbErr) == 0 && sc.Cancel == 0 && d.rng.Intn(2) == 0 {
+			// a blob's stream breaks half-way while the file store is writing it; the retry must then complete.
+			// Preferably a blob the manifests name (title annotation): the file store writes those under their names.
+			victim := 1 + d.rng.Intn(n)
+			for _, k := range d.rng.Perm(n) {
+				for i := range nodes[k+1].Edges {
+					e := &nodes[k+1].Edges[i]
+					if (e.Role == "layer" || e.Role == "blob") && nodes[e.To].Kind == "blob" && !nodes[e.To].Empty {
+						if e.Title == "" {
+							e.Title = fmt.Sprintf("f%d-in-%d.txt", e.To, k+1)
+						}
+						victim = e.To
+					}
+				}
+			}
+			sc.Nodes = nodes
+			sc.Dst0 = []int{}
+			sc.Faults = []Fault{{"fetch", victim, "mid"}}
 		}
 		d.run(&sc)
 	}
